@@ -25,23 +25,23 @@ func init() {
 }
 
 var accumulators = map[string]string{
-	"io.ReadAll":                        "reads the whole stream before returning",
-	"io/ioutil.ReadAll":                 "reads the whole stream before returning",
-	"io.ReadFull":                       "blocks until the buffer is full",
-	"io.ReadAtLeast":                    "blocks until a minimum number of bytes has arrived",
-	"(*bytes.Buffer).ReadFrom":          "reads the whole stream into memory",
-	"bufio.NewWriter":                   "buffers writes until 4 KiB or Flush",
-	"bufio.NewWriterSize":               "buffers writes",
-	"bufio.NewReadWriter":               "buffers writes",
-	"net/http/httputil.DumpResponse":    "reads the whole body",
-	"net/http/httputil.DumpRequestOut":  "reads the whole body",
-	"(*bufio.Reader).Peek":              "blocks until n bytes are available",
-	"(*bufio.Reader).ReadBytes":         "blocks until a delimiter arrives",
-	"(*bufio.Reader).ReadString":        "blocks until a delimiter arrives",
-	"(*bufio.Scanner).Scan":             "blocks until a full token arrives",
-	"io.CopyN":                          "blocks until n bytes have been copied",
-	"(*strings.Builder).Write":          "accumulates in memory",
-	"(*bytes.Buffer).Write":             "accumulates in memory",
+	"io.ReadAll":                       "reads the whole stream before returning",
+	"io/ioutil.ReadAll":                "reads the whole stream before returning",
+	"io.ReadFull":                      "blocks until the buffer is full",
+	"io.ReadAtLeast":                   "blocks until a minimum number of bytes has arrived",
+	"(*bytes.Buffer).ReadFrom":         "reads the whole stream into memory",
+	"bufio.NewWriter":                  "buffers writes until 4 KiB or Flush",
+	"bufio.NewWriterSize":              "buffers writes",
+	"bufio.NewReadWriter":              "buffers writes",
+	"net/http/httputil.DumpResponse":   "reads the whole body",
+	"net/http/httputil.DumpRequestOut": "reads the whole body",
+	"(*bufio.Reader).Peek":             "blocks until n bytes are available",
+	"(*bufio.Reader).ReadBytes":        "blocks until a delimiter arrives",
+	"(*bufio.Reader).ReadString":       "blocks until a delimiter arrives",
+	"(*bufio.Scanner).Scan":            "blocks until a full token arrives",
+	"io.CopyN":                         "blocks until n bytes have been copied",
+	"(*strings.Builder).Write":         "accumulates in memory",
+	"(*bytes.Buffer).Write":            "accumulates in memory",
 }
 
 // responsePathEntries are the entry points of the response path in module code.
